@@ -51,9 +51,12 @@ type Result struct {
 // Error contract: when ProcessPacket or Initiate returns an error, callers
 // must check Failed() to decide what to do next. If Failed() is false the
 // underlying noise state was not advanced (the packet was rejected before
-// ReadMessage took effect, or the rejection is non-fatal like a stale
-// retransmit) and the Machine can accept another packet. If Failed() is
-// true the Machine is unrecoverable and the caller must abandon it.
+// ReadMessage took effect, noise rolled back after an authentication
+// failure, or the rejection is non-fatal like a stale retransmit) and the
+// Machine can accept another packet. If Failed() is true the Machine is
+// unrecoverable and the caller must abandon it; this includes packets that
+// noise rejects only after absorbing part of them (truncated after the
+// ephemeral key, invalid or low-order public keys).
 type Machine struct {
 	hs             *noise.HandshakeState
 	getCred        GetCredentialFunc
@@ -225,11 +228,26 @@ func (m *Machine) ProcessPacket(out, packet []byte) ([]byte, *Result, error) {
 	// noise returns (cs1, cs2) where cs1 is the initiator->responder cipher.
 	// For 3-message patterns where a responder finishes by reading the final
 	// message, this ordering would be wrong; revisit when XX/pqIX lands.
+	//
+	// The noise library only rolls its symmetric state back when an AEAD open
+	// fails. A message that is cut short after a key token was absorbed
+	// (ErrShortMessage) or that carries an invalid or low-order public key
+	// (DH error) makes ReadMessage return with the handshake hash already
+	// advanced, after which no genuine message can ever authenticate again.
+	// Snapshot the hash so that case can be told apart from a clean rejection.
+	var hashBuf [64]byte
+	hashBefore := append(hashBuf[:0], m.hs.ChannelBinding()...)
 	msg, eKey, dKey, err := m.hs.ReadMessage(nil, packet[header.Len:])
 	if err != nil {
-		// Noise ReadMessage failed. The noise library checkpoints and rolls back
-		// on failure, so the Machine is still alive. The caller can retry with
-		// a different packet.
+		if !bytes.Equal(hashBefore, m.hs.ChannelBinding()) {
+			// noise consumed part of the message and did not roll back: the
+			// transcript is corrupt and this Machine can never complete.
+			m.failed = true
+			return nil, nil, fmt.Errorf("noise ReadMessage (state not recoverable): %w", err)
+		}
+		// Rejected before noise state was touched, or rolled back after an
+		// AEAD failure: the Machine is still alive and the caller can retry
+		// with a different packet.
 		return nil, nil, fmt.Errorf("noise ReadMessage: %w", err)
 	}
 
